@@ -200,6 +200,7 @@ fn macro_expand(
         let parse_context = ParseContext {
             current_path: context.current_path.clone(),
             include_paths: context.include_paths.clone(),
+            include_depth: 0,
             common_context: context.common_context.clone(),
             segments: segments.clone(),
             macros: context.macros.clone(),
